@@ -426,8 +426,9 @@ func c056(c *an.Ctx, p *an.Prog) {
 					continue
 				}
 				n++
-				_, fresh := fa.X.(*ssa.Alloc)
-				if !fresh || !strings.HasPrefix(fn.Name(), "NewServer") {
+				// (the object may come from a private allocating helper of the constructors: still unshared)
+				fresh := an.FreshObject(fa.X)
+				if !fresh || !strings.HasPrefix(strings.ToLower(fn.Name()), "newserver") {
 					bad = append(bad, "Server."+fieldNameOf(fa)+" written in "+fnKey(fn)+" at "+p.InstrPos(in))
 				}
 			}
